@@ -166,6 +166,20 @@ pub fn dispatch(op: &str, a: &[&str]) -> Option<Ans> {
             }
             (ia, if sr == 0 { ok(&s) } else { "err".into() })
         }
+        // kdf_after <len> <id> <ctx> <key> <prev_len>: the derivation made right after one of prev_len bytes with the same operands
+        "kdf_after" => {
+            let len: usize = a[0].parse().unwrap();
+            let prev: usize = a[4].parse().unwrap();
+            let id = u64::from_le_bytes(arr(&b[1]));
+            let (ctx, key): ([u8; 8], [u8; 32]) = (arr(&b[2]), arr(&b[3]));
+            let mut first = vec![0x5Au8; prev];
+            let _ = crypto_kdf_derive_from_key(&mut first, id, &ctx, &key);
+            let mut sub = vec![0xA5u8; len];
+            let r = crypto_kdf_derive_from_key(&mut sub, id, &ctx, &key);
+            let mut s = vec![0u8; len];
+            let sr = unsafe { so::crypto_kdf_derive_from_key(s.as_mut_ptr(), len, id, ctx.as_ptr() as *const _, key.as_ptr()) };
+            (if r.is_ok() { ok(&sub) } else { "err".into() }, if sr == 0 { ok(&s) } else { "err".into() })
+        }
         // ------------------------------------------------------------------ seeded key generation
         "box_seed_keypair" => {
             let seed = &b[0];
